@@ -393,8 +393,19 @@ def check_property(mod, world, tier="quick", seed=0):
             nf_ = bounded.get("native_failure") if isinstance(bounded, dict) else None
             if nf_ and rep.exit == EXIT_OK and not known_lines:
                 # the bounded stand-in disagrees with a clean deductive verdict: the engine or a contract is wrong
-                rep.say(f"ENGINE-ERROR property={prop}: bounded stand-in found a native failure the prover did not report: {str(nf_)[:300]}")
-                rep.bump(EXIT_ENGINE)
+                # a failing input on the real code is a violation whatever the prover says; that every obligation was discharged
+                # means the contracts do not carry this part of the property (recorded in the replay file as a contract gap)
+                fname = f"{prop}-bounded-{hashlib.sha1(json.dumps(nf_, sort_keys=True, default=str).encode()).hexdigest()[:10]}.json"
+                path = os.path.join(EVDIR, "replays", fname)
+                os.makedirs(os.path.join(VERIF, EVDIR, "replays"), exist_ok=True)
+                with open(os.path.join(VERIF, path), "w") as f:
+                    json.dump({"property": prop, "obligation": f"{prop}/native-differential", "unit": "bounded stand-in",
+                               "native_replay": nf_, "note": "every generated obligation was discharged, but this input fails the property on the real "
+                               "code: the contracts under this property do not cover it (contract gap)"}, f, indent=1, default=str)
+                rep.violations += 1
+                rep.say(f"VIOLATION property={prop} replay={path} obligation={prop}/native-differential unit=bounded-stand-in "
+                        f"(failing input found by the bounded stand-in; all deductive obligations discharged: contract gap) {str(nf_)[:200]}")
+                rep.bump(EXIT_VIOLATION)
         except Exception:  # noqa: BLE001
             rep.say(f"ENGINE-ERROR property={prop}: bounded stand-in crashed: {traceback.format_exc().strip().splitlines()[-1]}")
             sys.stderr.write(traceback.format_exc())
